@@ -572,8 +572,8 @@ fn gen_scenario(seed: u64) -> Scenario {
         };
         jobs.push(Job {
             src,
-            n: *r.pick(&[1u64, 4, 16, 64]),
-            wasm: r.chance(1, 3),
+            n: *r.pick(&[1u64, 2, 8, 32]),
+            wasm: r.chance(1, 5),
         });
     }
     // jobs that include one generated library file (never seen by this process before)
